@@ -386,7 +386,12 @@ static bool varok(int i) { return i >= 0 && i < K; }
 
 static void op(long c, long, vh::Tok& t)
 {
-  const char* o = t.v[0];
+  // `assign!` / `cont!`: the same operation without the self-containment guard (only used by the
+  // known-finding witness: the code then stores into a payload a handle to that payload)
+  char oname[32]; strncpy(oname, t.v[0], 31); oname[31] = 0;
+  bool unguarded = false;
+  { size_t L = strlen(oname); if(L && oname[L - 1] == '!') { unguarded = true; oname[L - 1] = 0; } }
+  const char* o = oname;
   const char* res = "done";
   Path p, sp;
   if(!strcmp(o, "swap") || !strcmp(o, "copynew")) {
@@ -435,7 +440,7 @@ static void op(long c, long, vh::Tok& t)
     int j = atoi(t.v[3]);
     parse_path(t.v[4], sp);
     if(!varok(j)) res = "badvar";
-    else if(self_containing(i, p, j, sp, false)) res = "excluded";
+    else if(!unguarded && self_containing(i, p, j, sp, false)) res = "excluded";
     else {
       Variant* d = nav_mut(vars[i], p);
       if(!d) res = "nopath";
@@ -464,7 +469,7 @@ static void op(long c, long, vh::Tok& t)
     char* a2 = strtok_r(0, ":", &save);
     bool isIns = !strcmp(cname, "ins");
     if(!varok(j)) res = "badvar";
-    else if(isIns && self_containing(i, p, j, sp, true)) res = "excluded";
+    else if(!unguarded && isIns && self_containing(i, p, j, sp, true)) res = "excluded";
     else {
       Variant* d = nav_mut(vars[i], p);
       if(!d) res = "nopath";
